@@ -127,6 +127,7 @@ struct State
             {
                 h = (h ^ e.val) * 1099511628211ULL;
                 h = (h ^ e.use_seq) * 1099511628211ULL;
+                h = (h ^ (e.ins_seq * 0x9E3779B97F4A7C15ULL)) * 1099511628211ULL;
                 h = (h ^ e.count) * 1099511628211ULL;
                 h = (h ^ (uint64_t)e.deadline) * 1099511628211ULL;
                 h = (h ^ (uint64_t)e.touch) * 1099511628211ULL;
